@@ -14,6 +14,8 @@
 (*   tail for leaves: layout-like tokens that the leaf's own payload ends  *)
 (*        with (text ending in a line break and spaces) - they are part    *)
 (*        of the content, not layout.                                      *)
+(*   pre  likewise, tokens the payload BEGINS with (text that starts with  *)
+(*        a line break, e.g. the content of a <pre>).                      *)
 (* Output is a sequence of tokens <<kind, id>>:                            *)
 (*   ind (one indentation unit), eol, open, void (self-closed), close,     *)
 (*   leaf.                                                                 *)
@@ -25,7 +27,7 @@ EXTENDS Naturals, Sequences, FiniteSets, SequencesExt
 TagKinds  == {"B", "I", "V", "W"}
 LeafKinds == {"T", "H", "R", "M", "E"}
 
-N(k, id, c) == [k |-> k, id |-> id, c |-> c, tail |-> <<>>]
+N(k, id, c) == [k |-> k, id |-> id, c |-> c, tail |-> <<>>, pre |-> <<>>]
 
 IsTag(x)  == x.k \in TagKinds
 AddWs(x)  == x.k \in {"B", "V"}
@@ -40,7 +42,7 @@ Tok(kind, id) == <<kind, id>>
 IND == Tok("ind", 0)
 EOL == Tok("eol", 0)
 Ind(n) == [i \in 1..n |-> IND]
-LeafToks(x) == IF x.k = "E" THEN <<>> ELSE <<Tok("leaf", x.id)>> \o x.tail
+LeafToks(x) == IF x.k = "E" THEN <<>> ELSE x.pre \o <<Tok("leaf", x.id)>> \o x.tail
 
 -----------------------------------------------------------------------------
 (* Code-shaped renderer *)
@@ -173,7 +175,7 @@ C06Holds(x, indent, eol, out) == InScope(x) => out = Layout(x, indent, eol)
 \* replaces the separator) are consequences of out = Layout(x, indent, eol) holding for every
 \* indent and both eol settings, which is how they are checked.
 RECURSIVE NoTails(_)
-NoTails(x) == x.tail = <<>> /\ \A i \in 1..Len(x.c) : NoTails(x.c[i])
+NoTails(x) == x.tail = <<>> /\ x.pre = <<>> /\ \A i \in 1..Len(x.c) : NoTails(x.c[i])
 -----------------------------------------------------------------------------
 (* C07 *)
 C07Holds(x, out, outStripped) == out = outStripped
